@@ -102,7 +102,7 @@ Section Iface.
     (forall c i, (in_flow_at st c \/ abs_at st c \/ hidden_at st c) -> qi_mode i = PerformLayout -> PQ c i) ->
     (forall c l, (in_flow_at st c \/ abs_at st c) -> PS c l) ->
     (forall c, hidden_at st c -> PS c (f_with_order c)) ->
-    QSL q_layout l_any (QSL q_layout l_any (QSL q_hidden l_with_order IsRet (hidden_nodes st)) (abs_nodes st)) walk a -> P a.
+    QSL q_layout l_any (QSL q_layout l_any (QSLc q_hidden l_with_order IsRet (hidden_nodes st)) (abs_nodes st)) walk a -> P a.
   Proof.
     intros Pr Pq Ps Hw Hq Hl Hh Hs.
     eapply (QSL_closed P PQ PS Pq Ps); [| | |exact Hs].
@@ -111,7 +111,7 @@ Section Iface.
     - intros x Hx. eapply (QSL_closed P PQ PS Pq Ps); [| | |exact Hx].
       + intros c i Hc Hm. apply Hq; [right; left; apply abs_nodes_iff; exact Hc|exact Hm].
       + intros c l Hc _. apply Hl. right. apply abs_nodes_iff. exact Hc.
-      + intros y Hy. eapply (QSL_closed P PQ PS Pq Ps); [| | |exact Hy].
+      + intros y Hy. apply QSLc_QSL in Hy. eapply (QSL_closed P PQ PS Pq Ps); [| | |exact Hy].
         * intros c i Hc ->. apply Hq; [right; right; apply hidden_nodes_iff; exact Hc|reflexivity].
         * intros c l Hc ->. apply Hh. apply hidden_nodes_iff. exact Hc.
         * intros z Hz. apply (IsRet_closed P Pr). exact Hz.
@@ -210,7 +210,7 @@ Section Iface.
     - intros x [[E _]|[_ (walk & Hw & Hs)]]; [rewrite Em in E; discriminate|].
       eapply (QSL_Visits q_layout); [intros ? ? E; exact E|exact Hs|]. intros y Hy.
       eapply (QSL_Visits q_layout); [intros ? ? E; exact E|exact Hy|]. intros z Hz.
-      eapply (QSL_Visits q_hidden); [intros ? ? ->; reflexivity|exact Hz|]. intros r [o ->].
+      apply QSLc_QSL in Hz. eapply (QSL_Visits q_hidden); [intros ? ? ->; reflexivity|exact Hz|]. intros r [o ->].
       unfold p. rewrite minus3_nil; [apply Vis_ret|].
       intros c Hc. apply in_seq in Hc. destruct (classes_cover st c) as [A|[A|A]]; [lia| | |].
       + left. apply Hw. exact A.
@@ -252,7 +252,7 @@ Section Iface.
     - intros x [[E _]|[_ (walk & Hw & Hs)]]; [rewrite Em in E; discriminate|].
       eapply QSL_SetsLast; [exact Hs|]. intros y Hy.
       eapply QSL_SetsLast; [exact Hy|]. intros z Hz.
-      eapply QSL_SetsLast; [exact Hz|]. intros r [o ->].
+      apply QSLc_QSL in Hz. eapply QSL_SetsLast; [exact Hz|]. intros r [o ->].
       unfold p. rewrite minus3_nil; [apply SL_ret|].
       intros c Hc. apply in_seq in Hc. destruct (classes_cover st c) as [A|[A|A]]; [lia| | |].
       + left. apply Hw. exact A.
